@@ -9,4 +9,4 @@ ls seeded | while read id; do
   prop=${id%-*}; n=${id##*-}
   pkg=$(jq -r '.demo.package_dir // "-"' $m 2>/dev/null); run=$(jq -r '.demo.run // "."' $m 2>/dev/null)
   echo "$prop $n $pkg $run"
-done | xargs -P $P -L 1 sh -c 'VCHECK=/tmp/vcheck-frozen SEED_SCRATCH=1 /verif/tools/seed.sh "$0" "$1" "$2" "$3" > /tmp/reseed-$0-$1.log 2>&1; echo "$0-$1 $(grep -h "suite_rc\|caught_by\|does not" /tmp/reseed-$0-$1.log | tr "\n" " ")"'
+done | xargs -P $P -L 1 sh -c 'VCHECK=/tmp/vcheck-frozen SEED_SCRATCH=1 SEED_SRC=/verif/seeded/$0-$1 /verif/tools/seed.sh "$0" "$1" "$2" "$3" > /tmp/reseed-$0-$1.log 2>&1; echo "$0-$1 $(grep -h "suite_rc\|caught_by\|does not" /tmp/reseed-$0-$1.log | tr "\n" " ")"'
